@@ -4,6 +4,7 @@ import (
 	"encoding/binary"
 	"fmt"
 	"io"
+	"math"
 )
 
 // RangeNamespaceDataIDV0Size defines the size of the RangeNamespaceDataIDV0Size in bytes,
@@ -23,7 +24,38 @@ func NewRangeNamespaceDataIDV0(
 	if err != nil {
 		return RangeNamespaceDataIDV0{}, err
 	}
-	return RangeNamespaceDataIDV0{RangeNamespaceDataID: rngData}, nil
+	rngid := RangeNamespaceDataIDV0{RangeNamespaceDataID: rngData}
+	if err := rngid.validateWidth(); err != nil {
+		return RangeNamespaceDataIDV0{}, err
+	}
+	return rngid, nil
+}
+
+// validateWidth checks that From and To can be represented by the 16-bit fields of the V0 binary
+// form. Larger indexes must be refused instead of being silently wrapped.
+func (rngid RangeNamespaceDataIDV0) validateWidth() error {
+	if rngid.From > math.MaxUint16 || rngid.To > math.MaxUint16 {
+		return fmt.Errorf("%w: range [%d:%d) exceeds the 16-bit limit of RangeNamespaceDataIDV0",
+			ErrInvalidID, rngid.From, rngid.To)
+	}
+	return nil
+}
+
+// Validate performs basic fields validation, including the 16-bit limit of the V0 binary form.
+func (rngid RangeNamespaceDataIDV0) Validate() error {
+	if err := rngid.RangeNamespaceDataID.Validate(); err != nil {
+		return err
+	}
+	return rngid.validateWidth()
+}
+
+// Verify validates the RangeNamespaceDataIDV0 fields against the given ODS size and the 16-bit
+// limit of the V0 binary form.
+func (rngid RangeNamespaceDataIDV0) Verify(odsSize int) error {
+	if err := rngid.RangeNamespaceDataID.Verify(odsSize); err != nil {
+		return err
+	}
+	return rngid.validateWidth()
 }
 
 // RangeNamespaceDataIDV0FromBinary deserializes a RangeNamespaceDataIDV0 from its binary form.
@@ -82,6 +114,12 @@ func (rngid RangeNamespaceDataIDV0) WriteTo(w io.Writer) (int64, error) {
 // appendTo helps in constructing the binary representation of RangeNamespaceDataIDV0
 // by appending all encoded fields.
 func (rngid RangeNamespaceDataIDV0) appendTo(data []byte) ([]byte, error) {
+	if rngid.From < 0 || rngid.To < 0 {
+		return nil, fmt.Errorf("%w: negative range [%d:%d)", ErrInvalidID, rngid.From, rngid.To)
+	}
+	if err := rngid.validateWidth(); err != nil {
+		return nil, err
+	}
 	data, err := rngid.AppendBinary(data)
 	if err != nil {
 		return nil, fmt.Errorf("appending EdsID: %w", err)
